@@ -43,6 +43,7 @@ var extraPrelude = `(define-fun goquo ((a Int) (b Int)) Int (ite (>= a 0) (ite (
 (declare-fun ext.fileext (Str) Str)
 (declare-fun ext.builder.add (Str Int) Str)
 (declare-fun ext.errtext (Val) Str)
+(declare-fun ext.bytes2str ((Array Int Int) Int Int) Str)
 (declare-fun str.lt (Str Str) Bool)
 (declare-fun refl.box (Val) Int)
 (declare-fun refl.ptr (Int) Int)
@@ -59,6 +60,12 @@ var ioComps = map[string]Sort{
 	"G_io_Err":      arrSort(SInt, SStr),
 	"G_io_InPos":    SInt,
 	"G_io_Clock":    SInt,
+	// stdin as a sequence of lines: InLines of them, the last possibly without a newline; Delivered = lines handed to the program
+	"G_io_InLines":          SInt,
+	"G_io_LastUnterminated": SBool,
+	"G_io_Delivered":        SInt,
+	"XR_pos":                "(Array Int Int)",
+	"XR_ahead":              "(Array Int Int)",
 }
 
 type stubFn func(fe *FuncEnc, f *Frame, args []Term, argVals []ssa.Value, st *State, path Term, pos token.Pos) []Term
@@ -189,6 +196,7 @@ func init() {
 		"fmt.Errorf": {note: "fmt.Errorf returns a non-nil error",
 			fn: func(fe *FuncEnc, f *Frame, a []Term, av []ssa.Value, st *State, p Term, pos token.Pos) []Term {
 				id := fe.fresh("err", SInt)
+				fe.assume(tBool(true), tLt(tInt(0), id))
 				return []Term{Term{fmt.Sprintf("(VOther %d %s)", errTag, id.S), SVal}}
 			}},
 		"os.Exit": {mods: []string{"G_io_Exited", "G_io_ExitCode"}, note: "os.Exit ends the process: later effects are void; the first exit code wins",
@@ -310,22 +318,60 @@ func init() {
 			fn: func(fe *FuncEnc, f *Frame, a []Term, av []ssa.Value, st *State, p Term, pos token.Pos) []Term {
 				return []Term{Term{"(ext.inline " + tSub(io(fe, st, "G_io_InPos"), tInt(1)).S + ")", SStr}}
 			}},
-		"bufio.NewReader": {note: "bufio.Reader over stdin",
+		"bufio.NewReader": {mods: []string{"XR_pos", "XR_ahead"}, note: "bufio.NewReader(os.Stdin): a reader with an empty buffer, positioned where the raw consumption of stdin stands",
 			fn: func(fe *FuncEnc, f *Frame, a []Term, av []ssa.Value, st *State, p Term, pos token.Pos) []Term {
 				r := fe.fresh("reader", SInt)
 				fe.assume(tBool(true), tLt(tInt(0), r))
+				raw := io(fe, st, "G_io_InPos")
+				fe.setComp(st, "XR_pos", tStore(io(fe, st, "XR_pos"), r, raw))
+				fe.setComp(st, "XR_ahead", tStore(io(fe, st, "XR_ahead"), r, raw))
 				return []Term{r}
 			}},
-		"(*bufio.Reader).ReadString": {mods: []string{"G_io_InPos"}, note: "Reader.ReadString('\\n'): next line of the ghost input or an error",
+		"(*bufio.Reader).ReadString": {mods: []string{"G_io_InPos", "G_io_Delivered", "XR_pos", "XR_ahead"}, note: "Reader.ReadString('\\n'): returns the reader's next line (with io.EOF for a missing or unterminated line); the reader may read ahead arbitrarily far into its private buffer",
 			fn: func(fe *FuncEnc, f *Frame, a []Term, av []ssa.Value, st *State, p Term, pos token.Pos) []Term {
-				ok := fe.fresh("readok", SBool)
-				pos0 := io(fe, st, "G_io_InPos")
-				fe.setComp(st, "G_io_InPos", tAdd(pos0, tInt(1)))
-				id := fe.fresh("err", SInt)
-				return []Term{Term{"(ext.inline " + pos0.S + ")", SStr}, tIte(ok, Term{"VNil", SVal}, Term{fmt.Sprintf("(VOther %d %s)", errTag, id.S), SVal})}
+				r := a[0]
+				xpos := io(fe, st, "XR_pos")
+				xah := io(fe, st, "XR_ahead")
+				n := io(fe, st, "G_io_InLines")
+				deliv := io(fe, st, "G_io_Delivered")
+				pp := fe.define("rpos", tSelect(xpos, r))
+				// the reader must be in step with what the program has been given: otherwise lines swallowed by another reader's read-ahead are lost
+				fe.emit("stdin.sync", fe.srcLabel(pos, "call"), p, tEq(pp, deliv), "C19: the reader used for ইনপুট is positioned at the next undelivered line of stdin (no line was lost in another reader's buffer)", pos)
+				fe.obls[len(fe.obls)-1].Props = []string{"C19"}
+				// soundness of the shared reader's invariant: once a reader is registered (globalinv), every read must go through it
+				registered := false
+				viaRegistered := false
+				for _, gi := range fe.eng.globalinvs {
+					if strings.Contains(gi.Expr.Text, "readerPos") {
+						registered = true
+						if u, ok := av[0].(*ssa.UnOp); ok {
+							if g, ok := u.X.(*ssa.Global); ok && "G_"+sanitize(fe.eng.pkgShort(g.Pkg))+"_"+sanitize(g.Name()) == gi.Comp {
+								viaRegistered = true
+							}
+						}
+					}
+				}
+				if registered && !viaRegistered {
+					fe.emit("stdin.single", fe.srcLabel(pos, "call"), p, tBool(false), "C19: stdin is read through a reader other than the shared one", pos)
+					fe.obls[len(fe.obls)-1].Props = []string{"C19"}
+				}
+				has := fe.define("hasline", tLt(pp, n))
+				lastUnt := tAnd(tEq(pp, tSub(n, tInt(1))), io(fe, st, "G_io_LastUnterminated"))
+				// a missing or unterminated line is reported with io.EOF
+				eof := fe.comp(st, "G_io_EOF", SVal)
+				errv := tIte(tOr(tNot(has), lastUnt), eof, Term{"VNil", SVal})
+				text := tIte(has, Term{"(ext.inline " + pp.S + ")", SStr}, Term{"str_empty", SStr})
+				np := fe.define("rpos2", tIte(has, tAdd(pp, tInt(1)), pp))
+				ah := fe.fresh("readahead", SInt)
+				fe.assume(tBool(true), Term{fmt.Sprintf("(and (>= %s %s) (>= %s %s) (<= %s (ite (>= %s %s) %s %s)))", ah.S, tSelect(xah, r).S, ah.S, np.S, ah.S, n.S, np.S, n.S, np.S), SBool})
+				fe.setComp(st, "XR_pos", tStore(xpos, r, np))
+				fe.setComp(st, "XR_ahead", tStore(xah, r, ah))
+				fe.setComp(st, "G_io_InPos", ah)
+				fe.setComp(st, "G_io_Delivered", tIte(has, tAdd(deliv, tInt(1)), deliv))
+				return []Term{fe.define("linetext", text), fe.define("readerr", errv)}
 			}},
 	}
-	extraPrelude += "(declare-fun ext.inline (Int) Str)\n"
+	extraPrelude += "(declare-fun ext.inline (Int) Str)\n(assert (forall ((k Int)) (! (> (cplen (ext.inline k)) 0) :pattern ((ext.inline k)))))\n"
 }
 
 func stubMods(callee *ssa.Function) []string {
